@@ -88,6 +88,10 @@ def main(tier):
         if late != text:
             cases.append(rel.case("l%d" % n, late))
             meta["l%d" % n] = (m, late)
+        tabbed = apidoc.render(m["doc"], apidoc.Style(tabs_between=True))[0]
+        if tabbed != text and n % 2 == 0:
+            cases.append(rel.case("b%d" % n, tabbed))
+            meta["b%d" % n] = (m, tabbed)
     # a stand-alone method on the path of a URL block that has URL-level Tags: it has no parent URL, so it gets the
     # automatic tag of its first segment and nothing else changes
     same = {}
